@@ -35,9 +35,13 @@ CLAIMED = {
 
 SEARCH_NOTE = ('Trusted: Coq kernel + vm_compute; translator py2v.py with the bridge lemmas of proofs/SearchBridge.v; numeric '
                'kernels (shares, correlations, required impact, diagnostic tests) enter as oracles -- the theorems hold for '
-               'every behaviour of them; exhaustive_search / greedy_search / geos_within_constraints are hand-modelled in '
-               'model/Search.v and tied to the code by executed correspondence on generated cases (kernel tables from fresh '
-               'objects); heapq, itertools.combinations, CPython small-int set order (only under score ties). No axioms.')
+               'every behaviour of them; exhaustive_search is re-translated statement by statement on every run '
+               '(gen/Gen_Exhaustive.v, calling the translated generators and the translated HeapDict) and proved equal to the '
+               'hand-written model (proofs/ExhaustiveBridge.v), the property theorems are restated on the translated function; '
+               'greedy_search / geos_within_constraints / search_results are hand-modelled in model/Search.v; all of them are '
+               'tied to the code by executed correspondence on generated cases (kernel tables from fresh objects; 40% of the '
+               'cases run the search on an object with a history: earlier searches, other parameters first, a second matcher '
+               'on the same data object); heapq, itertools.combinations, CPython small-int set order (only under score ties). No axioms.')
 CLAIMED.update({
     'C01': dict(
         text='Coq theorems (props/C01.v) for every value type, score comparison, list of eligibility rows, parameter record '
